@@ -139,6 +139,14 @@ func (c *Cluster) execOp(op string) {
 		c.deliver(k, f[0] == "dup")
 	case "drop":
 		c.drop(int(atou(f[1])))
+	case "resnap":
+		if n := c.nodeArg(f[1]); n != nil {
+			back := 0
+			if len(f) > 2 {
+				back = int(atou(f[2]))
+			}
+			c.resnap(n, back)
+		}
 	case "process":
 		if n := c.nodeArg(f[1]); n != nil {
 			c.process(n)
